@@ -1028,6 +1028,14 @@ def _oracle_state(case, ir):
     contest, cands, scf = case["contest"], case["candidates"], case["scf"]
     n = len(cvrs)
     n_style = sum(1 for c in cvrs if _dict_of(c, contest) is not None)
+    # "over the same cards": which cards list the contest is a fact about the ballots, not about what has been computed
+    # on them -- after every assorter, mean, sum and margin has been evaluated the cards must list what they listed
+    if case.get("phantoms") is None and len(ir.get("has_contest", [])) == n:
+        for j, c in enumerate(cvrs):
+            if bool(ir["has_contest"][j]) != (_dict_of(c, contest) is not None):
+                return {"what": f"after the evaluations card {j} {c['votes']} "
+                                f"{'lists' if ir['has_contest'][j] else 'no longer lists'} contest {contest!r}: the style-based "
+                                f"means and margins are then taken over other cards than the tally"}
     f = Fraction(float(case["share"]))
     tagged = None
     if scf in (PLUR, APPR):
